@@ -1,5 +1,5 @@
 # replay of a bounded stand-in violation (C16): re-run native/c16_states.py
 import sys
-print('bosonic n=3 pure=False gaussian: reduced_dm([0, 2]) has shape (8, 8, 8, 8, 8, 8), expected two indices per mode')
+print('n=2 pure=False gaussian: photon statistics of mode 1 differ between fock [0.9674, 0.0108, 0.0204, 0.0007] and gaussian [0.878, 0.1103, 0.0072, 0.004]')
 print('REPLAY-VIOLATION')
 sys.exit(1)
